@@ -20,6 +20,10 @@ META = {
             'on the unchanged code (finding 37: TargetOutsideRoot is lexical; decide-d witnesses, also: a link and a directory created outside through the escaping link). '
             'Tie: every generated archive is unpacked by the real code into a sandbox 30 levels deep; the recursive after-snapshot of the whole sandbox must equal the model\'s '
             'final state, the before-snapshot must be the pristine layout, and Contained is evaluated on the implementation\'s snapshot. '
+            'Load path: the image loader\'s temp-directory life cycle (every exit of FromV1Image leaves TMPDIR as found; CleanUp) on Model/ImageLife.lean, and its disk '
+            'writes on Model/LoadDisk.lean (os.MkdirAll / os.OpenFile with physical resolution, no test before writing): for every layer sequence, entry names and '
+            'order, nothing outside the extraction directory changes and no symbolic link exists below it (C06_load_disk_*; witness that a link below it WOULD be '
+            'followed out). Tie: c06load, fresh sandbox per load, hostile archives, whole-sandbox snapshots. '
             'Runtime observation (not proved): scans with the built-in offline extractors leave the scanned tree, the working directory and TMPDIR unchanged.',
     'note': 'Trusted: Lean kernel; the OS model (path resolution, os.MkdirAll, os.Symlink, os.WriteFile, filepath.WalkDir) — validated by the snapshot comparison; '
             'archive/tar delivers the generated headers; NAME_MAX = 255. Not covered: what third-party libraries do to files, races, hard links as hard links '
@@ -31,7 +35,10 @@ THEOREMS = ['Scalibr.Unpack.C06_unpack_contained_partial', 'Scalibr.Unpack.C06_r
             'Scalibr.Unpack.C06_hypothesis_only_sufficient', 'Scalibr.Unpack.C06_unpack_contained_fails', 'Scalibr.Unpack.C06_unpack_not_contained', 'Scalibr.Unpack.C06_unpack_outside_unchanged']
 
 THEOREMS_LOAD = ['Scalibr.ImageLife.C06_load_failed_restores', 'Scalibr.ImageLife.C06_load_cleanup_restores', 'Scalibr.ImageLife.C06_load_others_untouched',
-                 'Scalibr.ImageLife.loop_failed', 'Scalibr.ImageLife.loop_others']
+                 'Scalibr.ImageLife.loop_failed', 'Scalibr.ImageLife.loop_others',
+                 'Scalibr.LoadDisk.C06_load_disk_outside_unchanged', 'Scalibr.LoadDisk.C06_load_disk_no_link_inside',
+                 'Scalibr.LoadDisk.C06_load_disk_failed_gone', 'Scalibr.LoadDisk.C06_load_disk_cleanup',
+                 'Scalibr.LoadDisk.C06_load_disk_link_would_escape', 'Scalibr.LoadDisk.layerName_ne_dotdot', 'Scalibr.LoadDisk.layers_safe']
 
 KEY = 'C06/lexical-target-outside-root'
 DEPTH = 30
@@ -389,6 +396,8 @@ def load_stream(ctx, replay=None):
             'hostile entries (names with .., absolute paths into the sandbox, links out and writes through them; seed %s) in every archive' % seed
             if hostile else 'benign entries otherwise')
         if what:
+            if f.get('out', '-') != '-' and 'changed something outside' not in what:
+                what += ' [sandbox changes: %s]' % _unhex(f.get('out'))
             if reported < 3:
                 reported += 1
                 ctx.violation('image load: %s. %s' % (what, desc), ['# ' + desc, case + '\t' + reply + '\t' + mod])
@@ -420,4 +429,5 @@ def load_stream(ctx, replay=None):
                                      'by files, directories and links written through them; any order). A failed load must leave TMPDIR as it was, a successful one '
                                      'adds exactly the image directory, CleanUp removes it, nothing else in the sandbox may change at any point, and nothing inside '
                                      'the image directory may lead out of it. The exits no input reaches (root node insertion, v1 layer index) are run on the model only. '
-                                     'STREAM ONLY for containment: Model/ImageLife.lean has no entry names; the theorems cover the life cycle' % len(rows))
+                                     'Containment on the model side: C06_load_disk_* on Model/LoadDisk.lean (physical resolution, no containment test in the operations); that model has no '
+                                     'stream of its own' % len(rows))
